@@ -118,6 +118,7 @@ def parse_counterexample(msg):
         return None
     s = msg[m.start() + len('when calling '):]
     s = re.sub(r'\s*\(which (returns|raises).*\)\s*$', '', s, flags=re.S)
+    s = re.sub(r'\s+with crosshair\.patch_to_return\(.*$', '', s, flags=re.S)
     try:
         a, k = eval(s, {'cell': lambda *a, **k: (a, k), 'twin': lambda *a, **k: (a, k),
                         '__builtins__': {'float': float, 'True': True, 'False': False, 'None': None}})
